@@ -285,7 +285,7 @@ def oracle_call(case):
 def plot_strategy():
     return st.fixed_dictionaries({
         'fn': st.sampled_from(['scatter_2d', 'scatter_3d', 'compare_2d', 'compare_3d']),
-        'n_real': st.integers(1, 30), 'n_synth': st.integers(1, 30), 'extra_cols': st.integers(0, 2), 'seed': S.SEEDS,
+        'n_real': st.integers(1, 30), 'n_synth': st.integers(1, 30), 'empty': st.sampled_from([None, None, None, 'real', 'synth']), 'extra_cols': st.integers(0, 2), 'seed': S.SEEDS,
         'columns': st.sampled_from(['default', 'explicit', 'explicit-permuted', 'tuple', 'wrong-count']),
         'dups': st.booleans(), 'title': st.sampled_from([None, 'a title']), 'index': st.sampled_from(['default', 'default', 'offset', 'shuffled', 'string', 'duplicated']),
     })
@@ -314,6 +314,10 @@ def oracle_plot(case):
         return pd.DataFrame(X, columns=names)
 
     real, synth = frame(case['n_real']), frame(case['n_synth'])
+    if compare and case.get('empty') == 'real':         # one of the two tables may have no rows (a filter that matched nothing)
+        real = real.iloc[:0].copy()
+    elif compare and case.get('empty') == 'synth':
+        synth = synth.iloc[:0].copy()
     style = case.get('index', 'default')
     for fr_ in (real, synth):          # frames as they come out of a split / filter / join
         n_ = len(fr_)
@@ -366,12 +370,14 @@ def oracle_plot(case):
             nm = tr.name if tr.name else 'Real'
             got.setdefault(nm, multiset([]))
             got[nm].update(multiset(pts))
-        require(set(got) == set(expected), 'visualization.%s: traces %r, expected %r' % (case['fn'], sorted(got), sorted(expected)), tag='trace-labels')
+        nonempty = {nm for nm in expected if expected[nm]}
+        require(nonempty <= set(got) <= set(expected), 'visualization.%s: traces %r, expected %r' % (case['fn'], sorted(got), sorted(nonempty)), tag='trace-labels')
         for nm in expected:
+            got.setdefault(nm, multiset([]))           # a table without rows needs no trace
             require(got[nm] == expected[nm], 'visualization.%s(columns=%r): the %r trace does not show exactly the rows of the %s frame (%d plotted, %d rows; first difference %r)'
                     % (case['fn'], cols, nm, nm.lower(), sum(got[nm].values()), sum(expected[nm].values()),
                        list((got[nm] - expected[nm]).items())[:1] or list((expected[nm] - got[nm]).items())[:1]), tag='plot-data')
-    return {'nontrivial': cols is not None, 'classes': ['fn:' + case['fn'], 'columns:' + mode, 'index:' + style]}
+    return {'nontrivial': cols is not None, 'classes': ['fn:' + case['fn'], 'columns:' + mode, 'index:' + style] + (['empty:' + case['empty']] if compare and case.get('empty') else [])}
 
 
 SUBS = [
